@@ -467,9 +467,25 @@ func makeOptionalPtrDecoder(typ reflect.Type) (decoder, error) {
 	if err != nil {
 		return nil, err
 	}
+	// The empty value standing for a nil pointer must be of the kind the
+	// encoder writes for it (see makePtrWriter): an empty list for struct,
+	// non-byte array, non-byte slice and interface elements, an empty string
+	// otherwise. Element types with a custom encoder keep accepting both.
+	nilKind, anyKind := String, false
+	switch ek := etype.Kind(); {
+	case etype.Implements(encoderInterface) || reflect.PtrTo(etype).Implements(encoderInterface):
+		anyKind = true
+	case (ek == reflect.Array || ek == reflect.Slice) && isByte(etype.Elem()):
+		nilKind = String
+	case ek == reflect.Struct || ek == reflect.Array || ek == reflect.Slice || ek == reflect.Interface:
+		nilKind = List
+	}
 	dec := func(s *Stream, val reflect.Value) (err error) {
 		kind, size, err := s.Kind()
 		if err != nil || size == 0 && kind != Byte {
+			if err == nil && !anyKind && kind != nilKind {
+				return &decodeError{msg: "wrong kind of empty value for nil pointer", typ: typ}
+			}
 			// rearm s.Kind. This is important because the input
 			// position must advance to the next value even though
 			// we don't read anything.
